@@ -875,6 +875,11 @@ impl Parser {
         let r = self.parsed_numbers[1];
         let g = self.parsed_numbers[2];
         let b = self.parsed_numbers[3];
+        // as for SGR 38;2: a component outside of 0..=255 is no color (don't wrap it with `as u8`),
+        // and the palette must not grow for a sequence that is rejected below.
+        if !matches!(self.parsed_numbers.first(), Some(0 | 1)) || !(0..=255).contains(&r) || !(0..=255).contains(&g) || !(0..=255).contains(&b) {
+            return Err(ParserError::UnsupportedEscapeSequence(self.current_escape_sequence.clone()).into());
+        }
         let color = buf.palette.insert_color_rgb(r as u8, g as u8, b as u8);
         match self.parsed_numbers.first() {
             Some(0) => {
